@@ -164,6 +164,11 @@ func (vc *VC) callFunc(callee *types.Func, recv Value, recvExpr ast.Expr, call *
 			fi = vc.w.byObj[o]
 		}
 	}
+	if fc != nil && fc.Implicit && !fc.Inline {
+		// swept function without clauses: verified separately for all inputs;
+		// here only its effects are over-approximated
+		return vc.havocCall(call, callee, st, "")
+	}
 	if fc != nil && !fc.Inline {
 		vc.contractCalls[key] = true
 		return vc.callByContract(fc, callee, sig, recv, recvExpr, args, call, st)
